@@ -13,6 +13,9 @@ Parts (DESIGN.md section 3, C20):
     argument, (3) the supplied values, and compared leaf by leaf with the container of the
     produced configuration; the produced configuration must convert with
     ``throw_on_missing=True`` and have exactly the schema's keys (complete).
+    ``presets`` enumerates every documented backbone preset string x every head type
+    string (and each backbone family x head type in dict form) through ``train()`` and
+    through the normalisation / round-trip oracle of (c).
 (b) ``auglists``: every ordered list of distinct geometric names (325) and of distinct
     intensity names (64): every named augmentation is enabled, and the configuration is
     the same as for the canonically ordered list (hence for every permutation).
@@ -195,6 +198,11 @@ VALID_SIZES = {"convnext": ["tiny", "small", "base", "large"], "swint": ["tiny",
 WEIGHTS = {
     "convnext": ["ConvNeXt_Base_Weights", "ConvNeXt_Tiny_Weights", "ConvNeXt_Small_Weights", "ConvNeXt_Large_Weights"],
     "swint": ["Swin_T_Weights", "Swin_S_Weights", "Swin_B_Weights"],
+}
+SIZE_WEIGHTS = {
+    "convnext": {"tiny": "ConvNeXt_Tiny_Weights", "small": "ConvNeXt_Small_Weights", "base": "ConvNeXt_Base_Weights",
+                 "large": "ConvNeXt_Large_Weights"},
+    "swint": {"tiny": "Swin_T_Weights", "small": "Swin_S_Weights", "base": "Swin_B_Weights"},
 }
 HEAD_TYPES = ["single_instance", "centroid", "centered_instance", "bottomup"]
 HEAD_CLASSES = {
@@ -703,7 +711,9 @@ def evaluate_train(case):
         return res
     for sec in ("data", "model", "trainer"):
         judge_section(res, sec, parts[sec], cont[sec + "_config"], "train()")
-    exp_top = {"name": "", "description": "", "sleap_nn_version": sleap_nn.__version__, "filename": ""}
+    sd = schema_defaults("TrainingJobConfig")
+    exp_top = {k: sd[k] for k in ("name", "description", "sleap_nn_version", "filename")}
+    exp_top["sleap_nn_version"] = sleap_nn.__version__  # "Version of SLEAP that generated this configuration"
     for p, a, e in diff({k: cont[k] for k in exp_top}, exp_top):
         res.fail("build:train:uncontrolled-option-not-schema-default:" + pstr(p), f"{pstr(p)} = {a!r}, expected {e!r}")
     res.n_evals = 3
@@ -1265,7 +1275,7 @@ def _strategies():
         keys = draw(st.permutations(sorted(d)))
         return {k: d[k] for k in keys}
 
-    head = st.one_of(st.none(), st.sampled_from(HEAD_TYPES), st.sampled_from(HEAD_TYPES), head_dict())
+    head = st.one_of(st.none(), st.sampled_from(HEAD_TYPES), head_dict(), head_dict())
     step_fields = {"step_size": st.integers(1, 100), "gamma": st.sampled_from([0.1, 0.5, 0.9, 0.3])}
     plateau_fields = {
         "threshold": st.sampled_from([1e-4, 1e-5, 1e-6, 0.01]),
@@ -1382,6 +1392,37 @@ def strategy_normalise():
     return case()
 
 
+def enum_presets(tier):
+    """Every documented backbone preset x every head type (string forms), plus every backbone
+    family / head type in dict form with one non-default value: through train() and, for one
+    head per preset, through normalisation + YAML round trip."""
+    base = {"train_labels_path": "train.pkg.slp", "val_labels_path": "val.pkg.slp"}
+    for i, preset in enumerate(sorted(BACKBONE_PRESETS)):
+        for j, head in enumerate(HEAD_TYPES):
+            kw = dict(base, backbone_config=preset, head_configs=head, max_epochs=5 + i, batch_size=2 + j)
+            fam, _cls, size = BACKBONE_PRESETS[preset]
+            if fam != "unet":
+                kw["pre_trained_weights"] = SIZE_WEIGHTS[fam][size]
+            yield {"do": "train", "kwargs": kw, "as_tuple": False}
+            if j == i % len(HEAD_TYPES):
+                yield {"do": "normalise", "kwargs": kw, "as_tuple": False, "form": "structured"}
+    dict_backbones = {"unet": {"filters": 16, "max_stride": 8}, "convnext": {"model_type": "base", "in_channels": 3},
+                      "swint": {"model_type": "small", "window_size": [5, 5]}}
+    for j, (fam, sub) in enumerate(sorted(dict_backbones.items())):
+        for head in HEAD_TYPES:
+            hd = {head: {layer: {"sigma": 2.5, "output_stride": 2} for layer in HEAD_CLASSES[head]}}
+            kw = dict(base, backbone_config={fam: sub}, head_configs=hd, lr_scheduler=sorted(SCHEDULERS)[j % 2])
+            yield {"do": "train", "kwargs": kw, "as_tuple": False}
+            yield {"do": "normalise", "kwargs": kw, "as_tuple": False, "form": "plain" if j % 2 else "structured"}
+
+
+def evaluate_preset(case):
+    res = evaluate_train(case) if case["do"] == "train" else evaluate_normalise(case)
+    res.cls("do=" + case["do"])
+    res.nontrivial = True  # a documented preset/head combination, each one distinct
+    return res
+
+
 # ---------------------------------------------------------------------------------------
 
 
@@ -1394,6 +1435,14 @@ def parts(tier):
             shards={"quick": 1, "thorough": 1},
             exhaustive={"quick": True, "thorough": True},
             min_nontrivial={"quick": 300, "thorough": 300},
+        ),
+        Part(
+            name="presets",
+            evaluate=evaluate_preset,
+            enumerate=enum_presets,
+            shards={"quick": 1, "thorough": 1},
+            exhaustive={"quick": True, "thorough": True},
+            min_nontrivial={"quick": 60, "thorough": 60},
         ),
         Part(
             name="invalid",
@@ -1423,17 +1472,17 @@ def parts(tier):
             name="train",
             evaluate=evaluate_train,
             strategy=strategy_train,
-            budget={"quick": 120, "thorough": 8000},
+            budget={"quick": 120, "thorough": 6000},
             shards={"quick": 1, "thorough": 16},
-            min_nontrivial={"quick": 35, "thorough": 2000},
+            min_nontrivial={"quick": 35, "thorough": 1500},
         ),
         Part(
             name="normalise",
             evaluate=evaluate_normalise,
             strategy=strategy_normalise,
-            budget={"quick": 90, "thorough": 8000},
+            budget={"quick": 90, "thorough": 6000},
             shards={"quick": 1, "thorough": 16},
-            min_nontrivial={"quick": 25, "thorough": 2000},
+            min_nontrivial={"quick": 25, "thorough": 1500},
         ),
     ]
 
@@ -1441,7 +1490,8 @@ def parts(tier):
 def extra_coverage():
     return {
         "exhaustive_domain": "all 325 ordered lists of distinct geometric names and all 64 of distinct intensity "
-        "names; the grid of invalid/boundary values of part (d)",
+        "names; all 12 backbone preset strings x 4 head type strings and 3 backbone x 4 head dict forms; the grid "
+        "of invalid/boundary values of part (d)",
         "doc_inconsistencies": [
             "get_trainer_config/train: shuffle_train docstring 'Default: False', signature default True, docs/config.md True",
             "get_trainer_config/train: ckpt_save_last docstring 'Default: False', signature default True, docs/config.md "
